@@ -378,9 +378,51 @@ func discover() discovery {
 			seenVar[v]++
 			n++
 			g := scen.CollisionGroup{Ver: ver, Path: p}
+			// three vectors with pairwise different base metrics and pairwise different results (a
+			// mix-up between two vectors that score alike would not be observable)
+			seenBase, seenRes := map[string]bool{}, map[string]bool{}
 			for _, ci := range writers[p] {
-				if len(g.Vectors) < 3 {
-					g.Vectors = append(g.Vectors, cands[ci])
+				parts := strings.Split(cands[ci], "/")
+				nb := 6
+				if ver == 3 {
+					nb = 9
+				}
+				if len(parts) < nb {
+					continue
+				}
+				bk := strings.Join(parts[:nb], "/")
+				res := scen.CollisionOp(ver, cands[ci])
+				if i := strings.LastIndex(res, " "); i > 0 {
+					res = res[:i] // without the encoding
+				}
+				if seenBase[bk] || seenRes[res] || len(g.Vectors) >= 3 {
+					continue
+				}
+				seenBase[bk], seenRes[res] = true, true
+				g.Vectors = append(g.Vectors, cands[ci])
+			}
+			if len(g.Vectors) < 2 {
+				seenVar[v]--
+				n--
+				continue
+			}
+			// which single query on an already decoded object writes the location?
+			for _, q := range scen.CollisionQueries {
+				o := scen.DecodeFor(ver, g.Vectors[0])
+				if o == nil {
+					break
+				}
+				restoreGlobals()
+				func() {
+					defer func() { recover() }()
+					scen.QueryOn(o, q)
+				}()
+				now := leafHashes()
+				if bh, ok := base[p]; now[p] != bh || !ok {
+					if _, has := now[p]; has || ok {
+						g.Query = q
+						break
+					}
 				}
 			}
 			d.Groups = append(d.Groups, g)
